@@ -244,6 +244,8 @@ func exec(r *hx.Run, line string) string {
 		}
 
 		return got
+	case "corpus": // corpus NAME KIND X Y: a function of trcorpus.go (translator self-check)
+		return corpusExec(f)
 	case "search": // search FN KIND: boundary enumeration shared with the Lean driver (Hive/Model/SafeMathSearch.lean)
 		ans, _ := searchAnswer(f[1], f[2])
 
@@ -326,6 +328,12 @@ func emit(r *hx.Run, line string) {
 	ans := exec(r, line)
 	r.Line(line, ans)
 	f := strings.Fields(line)
+	if f[0] == "corpus" {
+		r.Count("req:corpus:" + f[1])
+		r.Count("ans:corpus-" + strings.Fields(ans)[0])
+
+		return
+	}
 	if f[0] == "search" {
 		r.Count("req:search:" + f[1])
 		r.Count("ans:search-" + strings.Fields(ans)[0])
@@ -415,7 +423,7 @@ func clamp(k kind, z *big.Int) *big.Int {
 // "never a spurious error" clauses) is evaluated - that half costs ~4 ns per call.  A pair whose exact result is not
 // representable (expected answer: the overflow error, "never a wrapped value") costs ~0.3-0.5 us because the real function
 // formats an error message, 4100 core-seconds per type for all of them: those are evaluated for all y near the boundaries and
-// near zero and for every 7th y elsewhere (phase shifted per x).  Division (one overflowing pair, 65536 zero divisors) and
+// near zero and for every 11th y elsewhere (phase shifted per x).  Division (one overflowing pair, 65536 zero divisors) and
 // all 256 shift counts are complete.
 func sweep16[T safemath.Integer](r *hx.Run, name string, lo, hi int64) (evals int64) {
 	var wg sync.WaitGroup
@@ -450,9 +458,9 @@ func sweep16[T safemath.Integer](r *hx.Run, name string, lo, hi int64) (evals in
 			fits := func(z int64) bool { return z >= lo && z <= hi }
 			for x := lo + int64(w); x <= hi; x += int64(workers) {
 				for y := lo; y <= hi; y++ {
-					// pairs with an unrepresentable result: all y near the boundaries and near zero, every 7th y elsewhere
+					// pairs with an unrepresentable result: all y near the boundaries and near zero, every 11th y elsewhere
 					d := y - lo
-					sampled := !(d > 600 && hi-y > 600 && (y > 600 || y < -600) && (d+x)%7 != 0)
+					sampled := !(d > 600 && hi-y > 600 && (y > 600 || y < -600) && (d+x)%11 != 0)
 					a, b := T(x), T(y)
 					if sampled || fits(x+y) {
 						v, err := safemath.SafeAdd(a, b)
@@ -533,6 +541,8 @@ func main() {
 	}
 	// the boundary enumeration that the Lean driver runs over the regenerated model, here over the real functions
 	searchAll(r)
+	// translator self-check: the functions of trcorpus.go against their translation
+	corpusAll(r)
 	// exhaustive 8-bit
 	for _, kn := range []string{"u8", "i8"} {
 		k := kindOf(kn)
@@ -570,7 +580,7 @@ func main() {
 	r.Extra["exhaustive_8bit"] = true
 	if r.Tier == "thorough" {
 		r.Extra["dense_16bit_oracle_only_evaluations"] = sweep16[uint16](r, "u16", 0, 65535) + sweep16[int16](r, "i16", -32768, 32767)
-		r.Extra["dense_16bit_rule"] = "all 2^32 pairs of uint16 and of int16: every pair with a representable result for add/sub/mul, every pair for div, every value x every shift count; pairs with an unrepresentable sum/difference/product: boundary bands + every 7th"
+		r.Extra["dense_16bit_rule"] = "all 2^32 pairs of uint16 and of int16: every pair with a representable result for add/sub/mul, every pair for div, every value x every shift count; pairs with an unrepresentable sum/difference/product: boundary bands + every 11th"
 	}
 	// sampled wide types
 	n := 2000 * r.Scale
